@@ -5,6 +5,7 @@ SPEC = {
         {"comp": "token_cache", "module": "QV.Model.TokenCache", "quick": 1500, "thorough": 15000},
         {"comp": "token_decision", "module": "QV.Model.TokenDecision", "quick": 1000, "thorough": 8000},
         {"comp": "sim_c14", "module": "QV.Sys.MonC02", "quick": 60, "thorough": 1500},
+        {"comp": "sim_c14t", "module": "QV.Sys.MonC03T", "quick": 40, "thorough": 800},
     ],
     "assumptions": [
         "AEAD unforgeability of Token::decode (whatever opens under the server's token key is the unmodified encoding of a token that "
@@ -20,7 +21,7 @@ SPEC = {
 
 MANIFEST = {
     "text": ("System level (trace-validated on real endpoints, sim_c14): a client that has followed one Retry discards a second, "
-             "well-formed Retry injected by an on-path attacker before the server's Initial, and the handshake completes. "
+             "well-formed Retry injected by an on-path attacker before the server's Initial, and the handshake completes; a client whose server's transport parameters do not echo the connection IDs actually used (initial_source / original_destination / retry_source connection ID wrong, missing or unexpected) ends the handshake with TRANSPORT_PARAMETER_ERROR (sim_c14t). "
              "Component level of C14, proved in Coq for all histories (unbounded, by induction): BloomTokenLog accepts no "
              "(nonce, issued) pair twice for any non-zero lifetime, any clock behaviour, both turnover arms, any point of the "
              "Set->Bloom switch and any false-positive behaviour (bloom_single_use), zero lifetime always rejects; "
